@@ -67,7 +67,16 @@ pub fn gen_queries(rng: &mut Rng, keys: &[Vec<u8>], n: usize, kind: u8) -> Vec<Q
             }
             out.push(Query::Range { start, end, rev: rng.chance(1, 2), spelling: rng.below(2) as u8 });
         } else {
-            let prefix = match rng.below(8) {
+            let prefix = match rng.below(9) {
+                8 if !keys.is_empty() => {
+                    // the byte string right after the prefix range is itself a stored key
+                    let mut k = keys[rng.usize_below(keys.len())].clone();
+                    match k.last_mut() {
+                        Some(l) if *l > 0 => *l -= 1,
+                        _ => k.push(0xFF),
+                    }
+                    k
+                }
                 0 => Vec::new(),
                 1 => vec![0xFF; rng.urange(1, 4)],
                 2 => {
